@@ -123,8 +123,26 @@ def call_values(f, argsets):
     return out
 
 
+def sig_of(f):
+    """signature and annotations of a function as plain data: annotation objects by their type and name, so that an
+    annotation turned into a string (postponed evaluation inherited by compile/exec) shows"""
+    def ann(a):
+        if a is inspect.Parameter.empty:
+            return None
+        return [type(a).__name__, a if isinstance(a, str) else getattr(a, "__name__", repr(a))]
+    sg = inspect.signature(f)
+    return {"params": [[p.name, str(p.kind), ann(p.annotation), None if p.default is inspect.Parameter.empty else repr(p.default)]
+                       for p in sg.parameters.values()],
+            "return": ann(sg.return_annotation),
+            "annotations": sorted([k, ann(v)] for k, v in getattr(f, "__annotations__", {}).items())}
+
+
 def snapshot(c, argsets):
     r = {}
+    try:
+        r["sig"] = sig_of(c.formula.func)
+    except Exception as e:
+        r["sig"] = "err " + errname(e)
     try:
         r["name"] = c.name
         r["source"] = c.formula.source
@@ -194,6 +212,7 @@ def run_case(c):
             plain = ns[c["plain_name"]]
         res["expected"] = call_values(plain, argsets)
         res["expected_params"] = list(inspect.signature(plain).parameters)
+        res["expected_sig"] = sig_of(plain)
     except Exception as e:
         res["plain_err"] = errname(e) + ": " + str(e)[:200]
         return res
@@ -268,6 +287,7 @@ def run_case(c):
                 exec(op["plain"], ns2)
                 st["expected"] = call_values(ns2[op["plain_name"]], argsets)
                 st["expected_params"] = list(inspect.signature(ns2[op["plain_name"]]).parameters)
+                st["expected_sig"] = sig_of(ns2[op["plain_name"]])
                 mod = load_module(file_header(globs, True) + op["file_body"])
                 obj = eval(op["getter"], mod.__dict__)
                 st["same_object"] = obj is cells
